@@ -68,7 +68,8 @@ class GroupingService:
             DataFrame with duplicate values replaced with null
         """
         # Create a mask for rows where the value is different from the previous row
-        is_first_occurrence = (df[column] != df[column].shift(1)) | (
+        # ne_missing: a null and a non-null value are different group keys
+        is_first_occurrence = (df[column].ne_missing(df[column].shift(1))) | (
             pl.int_range(df.height) == 0
         )  # First row is always shown
 
@@ -113,11 +114,14 @@ class GroupingService:
             conditions.append(pl.int_range(df.height) == 0)
 
             # Higher-level columns changed condition
+            # (ne_missing: a null and a non-null value are different group keys)
             for higher_col in group_by[:i]:
-                conditions.append(pl.col(higher_col) != pl.col(higher_col).shift(1))
+                conditions.append(
+                    pl.col(higher_col).ne_missing(pl.col(higher_col).shift(1))
+                )
 
             # This column changed condition
-            conditions.append(pl.col(column) != pl.col(column).shift(1))
+            conditions.append(pl.col(column).ne_missing(pl.col(column).shift(1)))
 
             # Combine all conditions with OR
             should_show = conditions[0]
@@ -128,7 +132,11 @@ class GroupingService:
             suppressed_values = (
                 pl.when(should_show).then(pl.col(column)).otherwise(None)
             )
-            result_df = result_df.with_columns(suppressed_values.alias(column))
+            # Evaluate against the original data: the higher-level columns of
+            # result_df have already been suppressed at this point
+            result_df = result_df.with_columns(
+                df.select(suppressed_values.alias(column)).to_series()
+            )
 
         return result_df
 
